@@ -498,7 +498,7 @@ func c22Run(c *core.Ctx, raw json.RawMessage) {
 		for _, n := range upNodes() {
 			got, err := s.DumpNode(n)
 			if err != nil {
-				c.Violate("diverged-after-"+after, "node %d: database unreadable after %s: %v", n.Idx, after, err)
+				c.Violate("diverged-after-"+after, "node %d: database unreadable after %s: %s", n.Idx, after, strings.ReplaceAll(err.Error(), c.Dir, "<dir>"))
 				return false
 			}
 			if got != want {
@@ -561,7 +561,7 @@ func c22Run(c *core.Ctx, raw json.RawMessage) {
 		if s.Capped || c.Failed() {
 			break
 		}
-		c.Log.Add("%d op %d %s", s.StepN, opi, mustJSON(op))
+		c.Log.Add("%d op %d %s", s.StepN, opi, c22MustJSON(op))
 		switch op.K {
 		case "w":
 			n := pick(op.N)
@@ -682,7 +682,7 @@ func c22Run(c *core.Ctx, raw json.RawMessage) {
 					c.Violate("invalid-accepted-"+op.Bad, "%s of data that is not a valid database (%s, %d bytes, via %s node %d) was reported as successful", op.K, op.Bad, len(data), via, n.Idx)
 					return
 				}
-				c.Log.Add("invalid %s rejected: %.200s", op.K, why)
+				c.Log.Add("invalid %s rejected: %.200s", op.K, strings.ReplaceAll(why, c.Dir, "<dir>"))
 			} else {
 				if failed {
 					// a valid load may only fail for lack of a leader etc.; with a settled cluster that is a defect of the path
@@ -798,7 +798,7 @@ func c22Run(c *core.Ctx, raw json.RawMessage) {
 			}
 			if op.Crash {
 				if err := s.Crash(n.Idx); err != nil {
-					c.Discard("crash-failed: " + err.Error())
+					c.Discard("crash-failed")
 					return
 				}
 				c.Probe("node_crashed")
@@ -823,7 +823,7 @@ func c22Run(c *core.Ctx, raw json.RawMessage) {
 				break
 			}
 			if err := s.Restart(n.Idx); err != nil {
-				c.Violate("restart-failed", "node %d did not restart (crash=%v, loaded=%v): %v", n.Idx, op.Crash, loaded, err)
+				c.Violate("restart-failed", "node %d did not restart (crash=%v, loaded=%v): %s", n.Idx, op.Crash, loaded, strings.ReplaceAll(err.Error(), c.Dir, "<dir>"))
 				return
 			}
 			if loaded {
@@ -838,7 +838,7 @@ func c22Run(c *core.Ctx, raw json.RawMessage) {
 				continue
 			}
 			if err := s.Restart(downIdx); err != nil {
-				c.Violate("restart-failed", "node %d did not restart after being down (loaded=%v): %v", downIdx, loaded, err)
+				c.Violate("restart-failed", "node %d did not restart after being down (loaded=%v): %s", downIdx, loaded, strings.ReplaceAll(err.Error(), c.Dir, "<dir>"))
 				return
 			}
 			c.Probe("node_back_after_missing_operations")
@@ -851,7 +851,7 @@ func c22Run(c *core.Ctx, raw json.RawMessage) {
 			n := s.AddNode(sc.Knobs)
 			n.WithHTTP = true
 			if err := s.StartAndJoin(n.Idx, op.Voter); err != nil {
-				c.Discard("join-failed: " + err.Error())
+				c.Discard("join-failed")
 				return
 			}
 			c.Probe("late_join")
@@ -876,7 +876,7 @@ func c22Run(c *core.Ctx, raw json.RawMessage) {
 	c.Sig(fmt.Sprintf("%v/%d/%d/%s", loaded, nWritesOK, len(s.Nodes)-1, lastKind))
 }
 
-func mustJSON(v any) string {
+func c22MustJSON(v any) string {
 	b, _ := json.Marshal(v)
 	return string(bytes.TrimSpace(b))
 }
